@@ -36,6 +36,8 @@ QUICK_BUDGET_S = 150
 THOROUGH_BUDGET_S = 360
 CHUNK = 50
 STEP_KEYS = ("steps",)
+LOG_FORWARDED = ["indi.transport.server.tcp", "indi.transport.server.tty", "indi.routing.router", "indi.device.driver",
+                 "indi.device.properties.instance.vectors", "indi.device.properties.instance.elements"]
 FAULTS = ["eof", "reset", "eof_mid_message", "junk_then_eof", "handler_exception", "write_error", "tty_eof", "tty_handler_exception", "write_raises"]
 
 
@@ -65,6 +67,28 @@ def _extra(spec):
 
         return {"boom": boom}
     return extra
+
+
+_REAL_NOW = []
+
+
+def _reset_logging():
+    """Idempotent: undo whatever a (possibly aborted) earlier run of this process did to the logging set-up."""
+    import logging
+    import indi.logging as _IL
+    if not _REAL_NOW:
+        _REAL_NOW.append(_IL.now)
+    for _n in LOG_FORWARDED:
+        lg = logging.getLogger(_n)
+        for h in list(lg.handlers):
+            lg.removeHandler(h)
+        lg.propagate = True
+    root = logging.getLogger()
+    for h in list(root.handlers):
+        if isinstance(h, logging.NullHandler):
+            root.removeHandler(h)
+    _IL.now = _REAL_NOW[0]
+    logging.disable(logging.CRITICAL)
 
 
 def generate(seed, tier, index):
@@ -101,7 +125,7 @@ def generate(seed, tier, index):
     net = {"latency": rng.choice(["zero", "lan", "slow", "bursty"]), "frag": rng.choice(["whole", "fixed:7", "random", "coalesce"]),
            "hwm": rng.choice([0, 64, 65536])}
     return {"steps": steps, "nby": nby, "tty": tty, "libclient": libclient, "net": net, "seed": rng.randrange(1 << 30),
-            "exc_kind": rng.choice(["runtime", "runtime", "cancelled"]),
+            "exc_kind": rng.choice(["runtime", "runtime", "cancelled"]), "log_forward": rng.random() < 0.25,
             "pos_class": "first" if pos == 0 else ("last" if pos == n else "mid"), "pool": rng.randint(2, 4)}
 
 
@@ -144,9 +168,33 @@ def execute(scen):
     viol, probes, faults = [], {}, {}
     facts = {"tty": scen["tty"]}
     fired_registered = False
+    _reset_logging()
     with Sim(scen["seed"], cfg, PoolConfig(workers=scen["pool"])) as sim:
         stack = Stack(sim, [_device()], extra_attrs=_extra, with_tty=scen["tty"])
         router = stack.router
+        log_handler = None
+        if scen.get("log_forward"):
+            # the library's own log-to-clients handler (indi.logging.Handler, installed by the example servers): whatever the
+            # server logs at WARNING or above is routed to every client as a <message>
+            import logging
+            import indi.logging as _IL
+            import indi.message as _IM
+            from indi.logging import Handler as LogToClients
+            _il_now = _IL.now
+            _IL.now = _IM.now  # (indi.logging binds `now` at import time: give it this run's emission-stamp clock)
+            logging.disable(logging.NOTSET)
+            null_handler = logging.NullHandler()
+            logging.getLogger().addHandler(null_handler)  # (nothing is to be printed: the root logger gets a sink)
+            log_handler = LogToClients(router)
+            log_handler.setLevel(logging.WARNING)
+            # (attached to the server-side loggers only: in this simulation the library's client runs in the same process, and
+            # what a client logs about a <message> it cannot read must not be fed back to it as another <message>)
+            for _n in LOG_FORWARDED:
+                _lg = logging.getLogger(_n)
+                _lg.addHandler(log_handler)
+                _lg.setLevel(logging.WARNING)
+                _lg.propagate = False
+            probes["server_log_forwarded_to_clients"] = 1
         conns = {"victim": Conn(stack, "victim")}
         for i in range(scen["nby"]):
             conns[f"by{i}"] = Conn(stack, f"by{i}")
@@ -408,6 +456,14 @@ def execute(scen):
             if sim.net.counters.get(k):
                 probes[k] = sim.net.counters[k]
         server_tcp.ConnectionHandler.message_from_device = orig_mfd
+        if log_handler is not None:
+            import logging
+            for _n in LOG_FORWARDED:
+                logging.getLogger(_n).removeHandler(log_handler)
+                logging.getLogger(_n).propagate = True
+            logging.getLogger().removeHandler(null_handler)
+            logging.disable(logging.CRITICAL)
+            _IL.now = _il_now
         digest = sim.digest()
         vtime, steps = sim.loop.time(), sim.loop.steps
     vp = [s for s in scen["steps"] if s["op"] == "enableblob" and s["who"] == "victim"]
